@@ -10,6 +10,7 @@ import hashlib
 import os
 
 from .report import AnalysisError
+from .canon import canon
 
 REPO = os.environ.get('VERIF_REPO', '/repo')
 
@@ -20,7 +21,7 @@ class Module:
         self.text = text
         self.digest = hashlib.sha256(text.encode()).hexdigest()[:16]
         try:
-            self.tree = ast.parse(text)
+            self.tree = canon(ast.parse(text))
         except SyntaxError as e:  # pragma: no cover
             raise AnalysisError(f'{rel}: does not parse: {e}')
         for node in ast.walk(self.tree):
